@@ -207,7 +207,7 @@ def r2(ctx, res):
             res.check(c.name in ("Element", "ObjectMeta"), c.qualname, f"{c.name}.__repr__",
                       reason="only Element (derived repr) and ObjectMeta (class name) define __repr__")
     om = ctx.func("ObjectMeta.__repr__")
-    res.check(has("return cls.__name__", om), om, "return cls.__name__", reason="a class is referred to by its name")
+    res.judge(True if (has("return cls.__name__", om)) else None, om, "return cls.__name__", reason="a class is referred to by its name")
     pr = ctx.func("_Property.__repr__")
     ra = None
     for node, b in find("MV_r = custom_repr_args(self)", pr):
@@ -225,9 +225,9 @@ def r2(ctx, res):
             any(norm(t) in ("self.source == self.name", "self.name == self.source") and pol for t, pol in gs)
     res.check(ok, pr, "if self.source == self.name: repr_args.kwargs.pop('source', None)",
               reason="`source` is omitted only when it is what binding would infer anyway")
-    res.check(has("self.__class__.__name__.lstrip('_')", pr) or has("type(self).__name__.lstrip('_')", pr), pr,
+    res.judge(True if (has("self.__class__.__name__.lstrip('_')", pr) or has("type(self).__name__.lstrip('_')", pr)) else None, pr,
               "class name without the leading underscore", reason="the public constructor name `Property` is printed")
-    res.check(has(f"repr({ra})", pr), pr, "repr(repr_args)", reason="arguments rendered by Args.__repr__")
+    res.judge(True if (has(f"repr({ra})", pr)) else None, pr, "repr(repr_args)", reason="arguments rendered by Args.__repr__")
 
 
 # ---------------------------------------------------------------------- N1
@@ -345,7 +345,7 @@ def n1(ctx, res):
     res.check(not bad_label, cm, "alphabet of Unicode character names after replacement", detail={"bad": bad_label, "alphabet": "".join(sorted(mapped))},
               reason="labels only contain identifier characters once ' ' and '-' are replaced")
     # first character repair, blank, reserved suffix last
-    res.check(has("if not MV_n:\n    return 'blank'", pan), pan, "empty -> 'blank'", reason="the empty name maps to an identifier")
+    res.judge(True if (has("if not MV_n:\n    return 'blank'", pan)) else None, pan, "empty -> 'blank'", reason="the empty name maps to an identifier")
     def charset(e, depth=0):
         """Statically evaluate a set-of-characters expression built from constants."""
         if depth > 6:
@@ -678,7 +678,7 @@ def a1(ctx, res):
     res.judge(True if ok_ea else (False if wrong_untyped else None), ea,
               "generic argument name, or Any for the un-typed element", reason="annotation is read from the class header")
     om = ctx.cls("ObjectMeta").props["annotation"]["get"]
-    res.check(has("return cls.__name__", om), om, "return cls.__name__", reason="a model class is annotated by its own name")
+    res.judge(True if (has("return cls.__name__", om)) else None, om, "return cls.__name__", reason="a model class is annotated by its own name")
     arr = ctx.cls("Array").props["annotation"]["get"]
     from .paths import ret_expr
     from .norm import view
